@@ -89,6 +89,8 @@ def run(res):
         jc_arith.campaign(res)
     else:
         res.notes["jc_arith"] = "TODO: props/jc_arith.py not present; packed-word arithmetic not tied to the code in this run"
+    if not res.violations:
+        sched_common.free_stress(res, "C07", "jc", [(4, 5, 300, 2), (2, 3, 400, 1), (8, 8, 200, 0), (3, 1, 400, 2), (1, 4, 200, 1)])
     if res.breaks and not res.violations:
         sched_common.search_more(res, "C07", "jc_prog", variants(res.seed + 1), 300)
     res.assumptions += [
@@ -102,4 +104,6 @@ def run(res):
 
 
 def replay(path):
+    if os.path.isfile(path) and path.endswith("stress.txt") and open(path).readline().startswith("sync_stress_prog"):
+        return sched_common.replay_stress("C07", path)
     return sched_common.replay("C07", path)
